@@ -1,11 +1,15 @@
 (* C17 -- node identity, equality, ordering: a node is the key (document address, id).
-   Statements pinned here; proofs in Proofs/OrderProofs.v. *)
-From Coq Require Import List NArith Sorted.
+   Statements are pinned here (copied verbatim from the proof files by tools/pin_props.py);
+   each is re-proved by `exact` and followed by Print Assumptions. *)
+From Coq Require Import Ascii String.
+From Coq Require Import List NArith Bool PeanoNat Sorted.
 Import ListNotations.
-From RX.Model Require Import Base Stream Tokenizer Doc Builder Api.
+From RX Require Import Generated.
+From RX.Model Require Import Base CharClass Stream Tokenizer Doc Builder Parse Api.
 From RX.Proofs Require Import OrderProofs.
 Open Scope N_scope.
 
+(* ---- Proofs/OrderProofs.v ---- *)
 Theorem C17_node_eqb_iff :
   forall x y : node_key, node_eqb x y = true <-> x = y.
 Proof. exact node_eqb_iff. Qed.
